@@ -105,6 +105,8 @@ STATEFUL = ('stdnum.iban', 'stdnum.be.iban', 'stdnum.es.iban', 'stdnum.no.iban',
             'stdnum.us.ein', 'stdnum.eu.nace', 'stdnum.ch.vat', 'stdnum.de.handelsregisternummer', 'stdnum.eu.oss')
 
 SCHEDULE_PAIRS = [
+    # first use of the look-alike clean-up from two threads
+    (ev('isbn', 'validate', '９７８-0-471-11709-4'), ev('ean', 'validate', '７３５１３５３７')),
     (ev('be.iban', 'info', 'BE31435411161155'), ev('be.iban', 'info', 'BE31435411161155')),
     (ev('be.iban', 'info', 'BE31435411161155'), ev('cz.bankaccount', 'info', '34278-0727558021/0100')),
     (ev('cz.bankaccount', 'info', '34278-0727558021/0100'), ev('nz.bankaccount', 'info', '01-902-0068389-00')),
@@ -139,6 +141,9 @@ def plan(ctx):
     items += [('sched', i, t) for i in range(len(SCHEDULE_PAIRS))]
     items += [('import-race', i, t) for i in range(len(IMPORT_RACE_PAIRS) if not quick else 4)]
     items += [('crosscheck', 0, t)]
+    items += [('intra', i, t) for i in range(16)]
+    items += [('gs1-order', i, t) for i in range(8)]
+    items += [('steady', i, t) for i in range(16)]
     if not quick:
         items += [('focus3', i, t) for i in range(len(F))]
         items += [('sched3', 0, t)]
@@ -207,7 +212,16 @@ def _dec_hist(h):
 def watched_codes():
     e4.purge()
     import importlib
+    import types
     out = set()
+    for mn, skip in (('stdnum.util', ('get_number_modules', '_mk_char_map')), ('stdnum.numdb', ('read', '_parse', '_find'))):
+        try:
+            m = importlib.import_module(mn)
+        except Exception:
+            continue
+        for k, v in vars(m).items():
+            if isinstance(v, types.FunctionType) and v.__module__ == mn and k not in skip:
+                out.add(v.__code__)
     for mn, fn in (('stdnum.numdb', 'get'), ('stdnum.util', 'get_cc_module'), ('stdnum.iban', '_get_cc_module'),
                    ('stdnum.eu.vat', '_get_cc_module'), ('stdnum.vatin', '_get_cc_module'), ('stdnum.numdb', 'read')):
         try:
@@ -260,6 +274,84 @@ def explore_pair(res, pair, bound, module_code, kind, max_execs, nthreads=2):
                      devclass='%s:%s.%s|%s.%s' % (kind, events[0][0], events[0][1], events[1][0], events[1][1]))
     res['extra']['diverged_prefixes'] = res['extra'].get('diverged_prefixes', 0) + outcomes.get('<diverged>', 0)
     return n, outcomes, capped, stats['touch']
+
+
+def module_digest(name):
+    """Repr of every module-level object of a module (and of instances reachable from them, depth 3) except functions,
+    classes and modules: changes when a call leaves a trace in module-level state."""
+    import types
+    m = sys.modules.get(name)
+    parts = []
+
+    def walk(o, depth):
+        if depth > 3:
+            return '...'
+        if isinstance(o, dict):
+            return '{%s}' % ','.join('%r:%s' % (k, walk(v, depth + 1)) for k, v in list(o.items())[:2000])
+        if isinstance(o, (list, tuple, set, frozenset)):
+            return '[%s]' % ','.join(walk(v, depth + 1) for v in list(o)[:2000])
+        if isinstance(o, (str, int, float, bool, type(None), bytes)):
+            return repr(o)
+        if isinstance(o, (types.FunctionType, types.ModuleType, type, types.BuiltinFunctionType)):
+            return type(o).__name__
+        if type(o).__module__.startswith('stdnum') or hasattr(o, '__dict__'):
+            return '<%s %s>' % (type(o).__name__, walk(getattr(o, '__dict__', {}), depth + 1))
+        return repr(o)      # iterators, compiled patterns, ...: repr changes when the object is replaced
+    for k, v in sorted(vars(m).items()):
+        if k.startswith('__'):
+            continue
+        if isinstance(v, (types.FunctionType, types.ModuleType, type)):
+            continue
+        if type(v).__name__ == 'NumDB':
+            parts.append((k, len(v.prefixes)))
+            continue
+        parts.append((k, walk(v, 0)))
+    return repr(parts)
+
+
+def _steady(res, name, events, quick):
+    """Warm up, then see whether calls still change module-level state; if so explore the two-thread schedules."""
+    import types
+    e4.purge()
+    seq = []
+    for e in events:
+        e4.call(e)
+    d0 = module_digest(name)
+    for e in events:
+        seq.append(e4.call(e)[0])
+    d1 = module_digest(name)
+    if d0 == d1:
+        return 1, 0
+    m = sys.modules[name]
+    watched = set()
+    for k, v in vars(m).items():
+        if isinstance(v, types.FunctionType) and v.__module__ == name:
+            watched.add(v.__code__)
+        elif isinstance(v, type) and v.__module__ == name:
+            for kk, vv in vars(v).items():
+                if isinstance(vv, types.FunctionType):
+                    watched.add(vv.__code__)
+    cnt = {'n': 0}
+
+    def mk():
+        return [lambda e=e: e4.call(e)[0] for e in events]
+
+    def check(results, taken, sched):
+        cnt['n'] += 1
+        bad = [i for i in range(len(events)) if results.get(i) != seq[i]]
+        if bad:
+            i = bad[0]
+            got = results.get(i)
+            res.viol(ID, 'schedule-changes-result', events[i][0], events[i][1],
+                     {'kind': 'steady', 'events': [_enc_hist([('call', e)])[0] for e in events], 'schedule': taken, 'module_code': False},
+                     'two threads in steady state: under schedule %r thread %d observed %r, sequentially it is %r' % (taken[:40], i, got, seq[i]),
+                     'sequential observation', excinfo=(got or ('none',))[0] + ('/' + str(got[1]) if got and got[0] == 'raise' else ''),
+                     devclass='steady:%s.%s' % (events[0][0], events[0][1]), rank=[sum(1 for c in taken if c), len(taken), repr(taken)])
+        return repr(sorted(results.items()))
+    execs, outcomes, capped = e4.explore_schedules(mk, watched, 2, lambda: None, check, max_execs=400 if quick else 4000,
+                                                   watch_module_code=False)
+    res['extra'].setdefault('steady_state_mutators', {})['%s.%s' % (name, events[0][1])] = execs
+    return execs, execs
 
 
 def work(item):
@@ -366,6 +458,87 @@ def work(item):
         if capped:
             res['extra'].setdefault('caps_hit', {})['import-race:%d' % idx] = execs
         res['extra']['import_race_executions'] = execs
+    elif kind == 'intra':
+        # same module, different inputs: [f(x1), f(x2)] and [validate(x1), f(x2)] for the module's public functions
+        for j, (name, m) in enumerate(core.modules().items()):
+            if j % 16 != idx:
+                continue
+            vals = list(dict.fromkeys(v for s_, v in seedmod.seeds(name, 4 if quick else 8)))
+            if len(vals) < 2:
+                continue
+            fns = ['validate', 'is_valid'] + [f for f in ('format', 'compact', 'split', 'info') if hasattr(m, f)]
+            fns += [f for f in sorted(vars(m)) if f.startswith(('get_', 'to_', 'calc_')) and inspect.isfunction(getattr(m, f))
+                    and len([p for p in inspect.signature(getattr(m, f)).parameters.values()
+                             if p.default is inspect.Parameter.empty]) == 1][:6]
+            for fn in fns:
+                for a in vals:
+                    for b in vals:
+                        if a == b:
+                            continue
+                        n += 1
+                        nt += 1
+                        check_history(res, [('call', (name, fn, (a,), ())), ('call', (name, fn, (b,), ()))], kind)
+    elif kind == 'gs1-order':
+        # order dependence inside the GS1 codec: one element string per format class (variable-length AI first, no
+        # separator, so that padding code runs), all ordered pairs of classes
+        from . import c16
+        tab = c16.table()
+        cl = c16.classes(tab)
+        keys = sorted(cl)
+        strings = []
+        for k in keys:
+            ai = cl[k][0]
+            ws = c16._wit(ai, k[0], k[1], True)
+            if not ws:
+                continue
+            w = ws[-1]
+            strings.append('(%s)%s(90)X' % (ai, w))
+        cnt = 0
+        for a in strings:
+            for b in strings:
+                cnt += 1
+                if cnt % 8 != idx:
+                    continue
+                n += 1
+                nt += 1
+                check_history(res, [('call', ('stdnum.gs1_128', 'validate', (a,), ())),
+                                    ('call', ('stdnum.gs1_128', 'validate', (b,), ()))], kind)
+        res['extra']['gs1_order_strings'] = len(strings)
+    elif kind == 'steady':
+        # steady-state races: a module whose module-level objects still change after a warm-up call gets its two-thread
+        # interleavings explored at line granularity of all its own functions and methods
+        import types
+        from ..tables.options import option_sets
+        from .. import e2
+        for j, (name, m0) in enumerate(core.modules().items()):
+            if j % 16 != idx:
+                continue
+            vals = list(dict.fromkeys(v for s_, v in seedmod.seeds(name, 3)))
+            if len(vals) < 1:
+                continue
+            if len(vals) == 1:
+                vals = vals * 2
+            fns = [f for f in ('validate', 'format', 'compact') if hasattr(m0, f)]
+            fns += [f for f in sorted(vars(m0)) if f.startswith(('to_', 'get_', 'calc_')) and inspect.isfunction(getattr(m0, f))
+                    and len([p for p in inspect.signature(getattr(m0, f)).parameters.values()
+                             if p.default is inspect.Parameter.empty]) == 1][:5]
+            for fn in fns:
+                events = [(name, fn, (vals[0],), ()), (name, fn, (vals[1],), ())]
+                # option variants: the second thread uses a non-default option with a number valid under it
+                f0 = getattr(m0, fn)
+                for o in option_sets(name, f0, m0.validate)[0][1:3]:
+                    try:
+                        vv, _st = e2.valid_set(name, m0, 'quick', nseeds=2, kw=o, cap=3)
+                    except Exception:
+                        vv = []
+                    if vv:
+                        events_o = [events[0], (name, fn, (vv[0],), tuple(sorted(o.items())))]
+                        n0, t0 = _steady(res, name, events_o, quick)
+                        n += n0
+                        nt += t0
+                n0, t0 = _steady(res, name, events, quick)
+                n += n0
+                nt += t0
     elif kind == 'crosscheck':
         # pristine-by-purge vs a real fresh interpreter, for the focus events
         import json
@@ -405,8 +578,12 @@ def replay(case):
         for v in res['violations']:
             v['sig'] = None
         return [dict(v, sig=_resig(v, case)) for v in res['violations']][:1]
-    # schedules: replay the recorded choice list twice and require the same observation
     events = [_dec_hist([e])[0][1] for e in case['events']]
+    if case['kind'] == 'steady':
+        r2 = Result()
+        _steady(r2, events[0][0], events, True)
+        return [dict(v, sig=None) for v in r2['violations'][:1]]
+    # schedules: replay the recorded choice list twice and require the same observation
     exp = [pristine(e) for e in events]
     watched = watched_codes() if not case.get('module_code') else set()
     outs = []
@@ -419,13 +596,18 @@ def replay(case):
         try:
             r = s.run([lambda e=e: e4.call(e)[0] for e in events])
         except RuntimeError:
-            return []
+            break
         after = [e4.call(e)[0] for e in events]
         outs.append((repr(sorted(r.items())), [i for i in range(len(events)) if r.get(i) != exp[i] or after[i] != exp[i]]))
-    if outs[0][0] == outs[1][0] and outs[0][1]:
+    if len(outs) == 2 and outs[0][0] == outs[1][0] and outs[0][1]:
         res.viol(ID, 'schedule', events[0][0], events[0][1], case, 'reproduced twice', '')
         return [dict(res['violations'][0], sig=None)]
-    return []
+    # the recorded choice list depends on which thread was blocked on the import lock at each point (a timing matter):
+    # when it does not replay literally, re-explore this pair of calls within the same bound and report what is found
+    r2 = Result()
+    explore_pair(r2, tuple(events[:2]), 1 if case.get('module_code') else 2, bool(case.get('module_code')), case['kind'],
+                 600, nthreads=len(events))
+    return [dict(v, sig=None) for v in r2['violations'][:1]]
 
 
 def _resig(v, case):
